@@ -11,13 +11,14 @@ package main
 //       elements and all Fx/Fxk runs are written as events for specs/SharesTrace.tla.
 
 import (
-	crand "crypto/rand"
 	"crypto/elliptic"
+	crand "crypto/rand"
 	"encoding/binary"
 	"fmt"
 	"math/big"
 	"math/rand"
 	"sync"
+	"time"
 
 	"github.com/markkurossi/mpc/bmr"
 	"github.com/markkurossi/mpc/ot"
@@ -29,13 +30,13 @@ func init() { commands["c20"] = c20Main }
 
 func c20Moduli() map[string]*big.Int {
 	m := map[string]*big.Int{
-		"p256":  elliptic.P256().Params().P,
-		"25519": new(big.Int).Sub(new(big.Int).Lsh(big.NewInt(1), 255), big.NewInt(19)),
+		"p256":      elliptic.P256().Params().P,
+		"25519":     new(big.Int).Sub(new(big.Int).Lsh(big.NewInt(1), 255), big.NewInt(19)),
 		"2^256-189": new(big.Int).Sub(new(big.Int).Lsh(big.NewInt(1), 256), big.NewInt(189)),
-		"65537": big.NewInt(65537),
-		"251":   big.NewInt(251),
-		"3":     big.NewInt(3),
-		"7":     big.NewInt(7),
+		"65537":     big.NewInt(65537),
+		"251":       big.NewInt(251),
+		"3":         big.NewInt(3),
+		"7":         big.NewInt(7),
 	}
 	return m
 }
@@ -62,8 +63,11 @@ type voleCall struct {
 
 func c20Vole(res *Result, tr *ndWriter, calls []voleCall, rng *rand.Rand) {
 	sc, rc := p2p.Pipe()
-	defer sc.Close()
-	defer rc.Close()
+	var onceS, onceR sync.Once
+	closeS := func() { onceS.Do(func() { sc.Close() }) }
+	closeR := func() { onceR.Do(func() { rc.Close() }) }
+	defer closeS()
+	defer closeR()
 	var snd *vole.Sender
 	var rcv *vole.Receiver
 	var wg sync.WaitGroup
@@ -86,10 +90,45 @@ func c20Vole(res *Result, tr *ndWriter, calls []voleCall, rng *rand.Rand) {
 			ys[i] = fieldElem(rng, p, rng.Intn(7))
 		}
 		var rs, us []*big.Int
-		wg.Add(2)
-		go func() { defer wg.Done(); rs, es = snd.Mul(xs, p) }()
-		go func() { defer wg.Done(); us, er = rcv.Mul(ys, p) }()
-		wg.Wait()
+		var ps, pr string
+		var cwg sync.WaitGroup
+		cwg.Add(2)
+		go func() {
+			defer cwg.Done()
+			defer func() {
+				if x := recover(); x != nil {
+					ps = fmt.Sprint(x)
+					closeS() // unblock the peer
+				}
+			}()
+			rs, es = snd.Mul(xs, p)
+		}()
+		go func() {
+			defer cwg.Done()
+			defer func() {
+				if x := recover(); x != nil {
+					pr = fmt.Sprint(x)
+					closeR()
+				}
+			}()
+			us, er = rcv.Mul(ys, p)
+		}()
+		fin := make(chan struct{})
+		go func() { cwg.Wait(); close(fin) }()
+		select {
+		case <-fin:
+		case <-time.After(20 * time.Second):
+			// one party returned (or neither) and the other waits forever: the gadget did not return its shares
+			res.viol("vole-stall", "Mul call %d (m=%d, modulus %s) does not return at both parties (sender error so far: %v, receiver: %v)", ci, c.m, c.mod, es, er)
+			closeS()
+			closeR()
+			<-fin
+			return
+		}
+		if ps != "" || pr != "" {
+			res.viol("vole-panic", "Mul call %d (m=%d, modulus %s) panics: sender %q, receiver %q", ci, c.m, c.mod, ps, pr)
+			return
+		}
 		if es != nil || er != nil {
 			res.viol("error:vole", "Mul call %d (m=%d, modulus %s): sender %v, receiver %v", ci, c.m, c.mod, es, er)
 			return
